@@ -250,9 +250,11 @@ func genTree(r *rng, hl int, mode int, keepRoot bool) *wgTree {
 			continue // the working directory is chosen at the end; no handles, no Sub views
 		}
 		if keepRoot && (k == "CM" || k == "CO" || k == "LC") && filepath.Clean("/"+untok(strings.Fields(op)[2])) == "/" {
-			// oracle stream: the mode and owner of "/" stay as created.  MemFS never checks search permission on the
-			// root directory itself (a C03 matter: with "/" at 0644 an unprivileged identity still resolves "/tmp",
-			// Linux answers EACCES); the enumeration composites are compared on trees where that cannot show.
+			// oracle stream: the mode and owner of "/" stay as created.  MemFS resolves "." (also the implicit directory
+			// of a relative Glob pattern) and ".." lexically, without the search-permission check Linux makes on the
+			// working directory: with "/" at 0644 and the working directory "/", an unprivileged ReadDir(".") or
+			// Glob("*") succeeds on MemFS and gets EACCES on Linux (a C01/C03 matter; absolute operands agree since the
+			// root search check was repaired); the enumeration composites are compared on trees where that cannot show.
 			continue
 		}
 		res := w.applyGuarded(strings.Fields(op))
